@@ -39,6 +39,13 @@ func (node *tagIfchangedNode) Execute(ctx *ExecutionContext, writer TemplateWrit
 			// Rendered content changed, output it
 			writer.Write(bufBytes)
 			state.lastContent = bufBytes
+		} else if node.elseWrapper != nil {
+			// Rendered content did not change: the else-part (like in the form with
+			// watched values)
+			err := node.elseWrapper.Execute(ctx, writer)
+			if err != nil {
+				return err
+			}
 		}
 	} else {
 		nowValues := make([]*Value, 0, len(node.watchedExpr))
